@@ -356,10 +356,12 @@ def _community(value: str) -> Community:
 
         prefix_int, suffix_int = int(prefix), int(suffix)
 
-        if prefix_int > Community.MAX:
+        # each half is 16 bits: Community.MAX is the largest 32 bit community, and comparing a half
+        # with it let 1:65536 through, which was then sent as 2:0
+        if prefix_int > 0xFFFF:
             raise ValueError('invalid community {} (prefix too large)'.format(value))
 
-        if suffix_int > Community.MAX:
+        if suffix_int > 0xFFFF:
             raise ValueError('invalid community {} (suffix too large)'.format(value))
 
         return Community(pack('!L', (prefix_int << 16) + suffix_int))
